@@ -64,7 +64,8 @@ def generate_commands(tools_dir):
 
 def build_generators(variant=""):
     """variant "": as the Makefiles build them; "uchar": with -funsigned-char, the plain-char signedness of ARM, AArch64,
-    RISC-V and PowerPC hosts - the checked-in files must be what the generators emit wherever they are built."""
+    RISC-V and PowerPC hosts; "clang": with the other compiler (evaluation order of arguments, for one, differs) - the
+    checked-in files must be what the generators emit wherever they are built."""
     th = tree_hash()
     d = os.path.join(BUILD, "gen", th)
     name = "tools" + ("-" + variant if variant else "")
@@ -81,10 +82,11 @@ def build_generators(variant=""):
             shutil.rmtree(os.path.join(BUILD, "gen", o), ignore_errors=True)
     jobs = []
     env = {"CFLAGS": "-funsigned-char", "CXXFLAGS": "-funsigned-char"} if variant == "uchar" else None
+    extra = ["CC=clang", "CXX=clang++"] if variant == "clang" else []
     needed = set(generate_subdirs(os.path.join(REPO, "tools")))   # generators that write a checked-in file
     for sub in sorted(os.listdir(os.path.join(d, name))):
         if os.path.exists(os.path.join(d, name, sub, "Makefile")) and sub in needed:
-            jobs.append({"cmd": ["make", "-C", os.path.join(d, name, sub), "-j4", "all"], "timeout": 900, "sub": sub, "env": env})
+            jobs.append({"cmd": ["make", "-C", os.path.join(d, name, sub), "-j4", "all"] + extra, "timeout": 900, "sub": sub, "env": env})
     for j, rc, out in run_parallel(jobs):
         if rc != 0:
             raise GenBuildError(j["sub"], out)
@@ -101,10 +103,13 @@ class GenBuildError(Exception):
 def check_generators(ev, seen):
     check_generators_variant(ev, seen, "")
     check_generators_variant(ev, seen, "uchar")
+    if shutil.which("clang") and shutil.which("clang++"):
+        check_generators_variant(ev, seen, "clang")
 
 
 def check_generators_variant(ev, seen, variant):
-    vtag = " (generator built with -funsigned-char, as on ARM / RISC-V / PowerPC hosts)" if variant else ""
+    vtag = {"": "", "uchar": " (generator built with -funsigned-char, as on ARM / RISC-V / PowerPC hosts)",
+            "clang": " (generator built with clang / clang++, the system compiler of macOS and the BSDs)"}[variant]
     try:
         tdir = build_generators(variant)
     except GenBuildError as e:
